@@ -74,6 +74,8 @@ def _separator(fn):
 COMPOUND = "autofit/mapper/prior/arithmetic/compound.py"
 MODEL_OBJECT = "autofit/mapper/model_object.py"
 LOG_GAUSSIAN = "autofit/mapper/prior/log_gaussian.py"
+COLLECTION = "autofit/mapper/prior_model/collection.py"
+TUPLE_PRIOR = "autofit/mapper/prior/tuple_prior.py"
 DRAWER = "autofit/non_linear/search/mle/drawer/search.py"
 ABSTRACT_SEARCH = "autofit/non_linear/search/abstract_search.py"
 
@@ -150,8 +152,52 @@ def _facts(repo):
     registered = [e.value for n in ast.walk(itree) if isinstance(n, ast.For) and isinstance(n.iter, ast.Tuple)
                   and any(isinstance(c, ast.Call) and T._dotted(c.func) == "register_parser" for c in ast.walk(n))
                   for e in n.iter.elts if isinstance(e, ast.Constant)]
+    # Collection.gaussian_prior_model_for_arguments (the LAST definition in the class body is the effective one): the new
+    # collection is filled by key and then takes over item_number (a token of the description) from its source
+    coltree, _ = T.parse_file(repo, COLLECTION)
+    defs = [n for n in _class(coltree, "Collection").body if isinstance(n, ast.FunctionDef)
+            and n.name == "gaussian_prior_model_for_arguments"]
+    if not defs:
+        raise T.TranslationError("Collection defines no gaussian_prior_model_for_arguments")
+    eff = defs[-1]
+    news = [a for a in T.assigns(eff, "collection") if isinstance(a.value, ast.Call) and T._dotted(a.value.func) == "Collection"
+            and not a.value.args and not a.value.keywords]
+    if len(T.assigns(eff, "collection")) != 1 or len(news) != 1:
+        raise T.TranslationError("Collection.gaussian_prior_model_for_arguments does not start from exactly one `collection = Collection()`")
+    rets = [n for n in ast.walk(eff) if isinstance(n, ast.Return)]
+    if len(rets) != 1 or T._dotted(rets[0].value) != "collection" or eff.body[-1] is not rets[0]:
+        raise T.TranslationError("Collection.gaussian_prior_model_for_arguments does not end with the single `return collection`")
+    sets = [n for n in ast.walk(eff) if isinstance(n, (ast.Assign, ast.AugAssign, ast.AnnAssign))
+            and any("item_number" in ast.unparse(t) for t in (n.targets if isinstance(n, ast.Assign) else [n.target]))]
+    calls = [n for n in ast.walk(eff) if isinstance(n, ast.Call) and T._dotted(n.func) in ("setattr", "collection.append", "delattr")]
+    if calls:
+        raise T.TranslationError("Collection.gaussian_prior_model_for_arguments uses %s: unknown effect on item_number"
+                                 % ast.unparse(calls[0]))
+    if not sets:
+        copies_item_number = False
+    elif len(sets) == 1 and isinstance(sets[0], ast.Assign) and len(sets[0].targets) == 1 and sets[0] in eff.body \
+            and T._dotted(sets[0].targets[0]) == "collection.item_number" and T._dotted(sets[0].value) == "self.item_number":
+        copies_item_number = True
+    else:
+        raise T.TranslationError("Collection.gaussian_prior_model_for_arguments sets item_number in an unknown way: %s"
+                                 % "; ".join(ast.unparse(x) for x in sets))
+    # TuplePrior.gaussian_tuple_prior_for_arguments: three loops (priors, fixed members, computed members) fill the new tuple
+    # priors first; ONE loop over self.__dict__.items() keeps the members in their own order
+    tptree, _ = T.parse_file(repo, TUPLE_PRIOR)
+    gt = T.find_function(tptree, "TuplePrior.gaussian_tuple_prior_for_arguments")
+    loops = [T._dotted(n.iter) or ast.unparse(n.iter) for n in gt.body if isinstance(n, ast.For)]
+    if any(isinstance(n, (ast.For, ast.While, ast.ListComp, ast.DictComp, ast.GeneratorExp)) and n not in gt.body for n in ast.walk(gt)):
+        raise T.TranslationError("TuplePrior.gaussian_tuple_prior_for_arguments has nested loops / comprehensions: member order unknown")
+    if loops == ["self.prior_tuples", "self.instance_tuples", "self.model_tuples"]:
+        tuple_keeps_order = False
+    elif loops in (["self.__dict__.items()"], ["self.__dict__.keys()"], ["self.__dict__"]):
+        tuple_keeps_order = True
+    else:
+        raise T.TranslationError("TuplePrior.gaussian_tuple_prior_for_arguments fills the new tuple in an unknown order: %r" % loops)
     global _MORE_FACTS
     _MORE_FACTS = {
+        "derive_copies_item_number": copies_item_number,
+        "tuple_derive_keeps_order": tuple_keeps_order,
         "modified_prior_storable": operand_cls == "ModelObject" and "modified" in registered,
         # a parameter-free Model is written as "instance" only when _instance_is_exact(model)
         "instance_only_when_exact": any(isinstance(n, ast.FunctionDef) and n.name == "_instance_is_exact" for n in mtree.body)
@@ -244,6 +290,10 @@ def regenerate(repo=None):
         "Definition modified_prior_storable : bool := %s." % ("true" if _MORE_FACTS["modified_prior_storable"] else "false"),
         "(* ModelObject.dict writes a parameter-free Model as 'instance' only when _instance_is_exact *)",
         "Definition instance_only_when_exact : bool := %s." % ("true" if _MORE_FACTS["instance_only_when_exact"] else "false"),
+        "(* %s: the effective Collection.gaussian_prior_model_for_arguments ends with collection.item_number = self.item_number *)" % COLLECTION,
+        "Definition derive_copies_item_number : bool := %s." % ("true" if _MORE_FACTS["derive_copies_item_number"] else "false"),
+        "(* %s: TuplePrior.gaussian_tuple_prior_for_arguments sets the members in one pass in their own order (false: priors first) *)" % TUPLE_PRIOR,
+        "Definition tuple_derive_keeps_order : bool := %s." % ("true" if _MORE_FACTS["tuple_derive_keeps_order"] else "false"),
         "",
     ]
     text = "\n".join(lines)
@@ -260,8 +310,8 @@ def regenerate(repo=None):
         "join_sep": {"source": repr(sep), "line": sep_line},
         "numpy_scalars_unwrapped": bool(unwraps),
         "sets_sorted": bool(sorts),
-        "facts": {"source": "numpy scalars unwrapped=%r sets sorted=%r modified prior storable=%r instance only when exact=%r "
-                            % (bool(unwraps), bool(sorts), _MORE_FACTS["modified_prior_storable"], _MORE_FACTS["instance_only_when_exact"]) + "CompoundPrior.__identifier_fields__=%r ModifiedPrior.__identifier_fields__=%r from_dict restores "
+        "facts": {"source": "numpy scalars unwrapped=%r sets sorted=%r modified prior storable=%r instance only when exact=%r derived collection copies item_number=%r derived tuple keeps member order=%r "
+                            % (bool(unwraps), bool(sorts), _MORE_FACTS["modified_prior_storable"], _MORE_FACTS["instance_only_when_exact"], _MORE_FACTS["derive_copies_item_number"], _MORE_FACTS["tuple_derive_keeps_order"]) + "CompoundPrior.__identifier_fields__=%r ModifiedPrior.__identifier_fields__=%r from_dict restores "
                             "item_number=%r LogGaussianPrior.dict=%r Drawer search.json readable=%r" % (compound, modified, restores, has_dict, drawer_ok),
                   "line": 0},
     }
@@ -1340,6 +1390,178 @@ def special_pairs(rng, gen):
 
 
 # ---------------------------------------------------------------------------------------
+# models DERIVED by the library from a composed model: the derived model must be the model composed by hand
+# ---------------------------------------------------------------------------------------
+DERIVE_ROUTES = ["identity", "partial", "partial", "replacing", "args", "with_limits", "means_a", "means_r", "uniform_floats",
+                 "result_absolute", "result_relative", "result_bounded", "copy", "freeze", "freeze_unfreeze", "freeze_derive"]
+INF = float("inf")
+
+
+def derive_eligible(spec):
+    """arithmetic priors are not carried through gaussian_prior_model_for_arguments by the library (the operands of a
+    CompoundPrior keep the old priors): outside what is derived here"""
+    return not (features(spec) & {"arith"}) and has_prior_spec(spec["model"])
+
+
+def used_refs(spec):
+    return sorted({n["ref"] for _, n in walk_spec(spec["model"]) if n["t"] == "prior"})
+
+
+def limited(p, lo_, hi_):
+    """Prior.with_limits of each family, as documented: Uniform / LogGaussian are tightened, Gaussian is centred between
+    the limits with their distance as sigma, LogUniform takes them (lower at least 1e-6)"""
+    fam = p["fam"]
+    lo, hi = unhex(p["lo"]), unhex(p["hi"])
+    if fam == "Uniform":
+        return {"fam": fam, "lo": hx(max(lo_, lo)), "hi": hx(min(hi_, hi))}
+    if fam == "LogUniform":
+        return {"fam": fam, "lo": hx(max(0.000001, lo_)), "hi": hx(hi_)}
+    if fam == "Gaussian":
+        return {"fam": fam, "lo": hx(-INF), "hi": hx(INF), "mean": hx((lo_ + hi_) / 2), "sigma": hx(hi_ - lo_)}
+    return {"fam": fam, "lo": hx(max(lo_, lo)), "hi": hx(min(hi_, hi)), "mean": p["mean"], "sigma": p["sigma"]}
+
+
+def derive_step(rng, gen, S, route=None):
+    """(D, H): one derivation request for the library and the equal specification composed by hand"""
+    used = used_refs(S)
+    route = route or rng.choice(DERIVE_ROUTES)
+    D, H = {"route": route}, _copy.deepcopy(S)
+    H.pop("build", None)
+    pool = S["pool"]
+    q = lambda v: rng.randint(-40, 40) / 8.0 if rng.random() < 0.5 else round(v, rng.randint(1, 6))
+    if route in ("partial", "replacing", "freeze_derive", "args"):
+        sub = used if route == "args" else rng.sample(used, rng.randint(1, max(1, (len(used) + 1) // 2)))
+        D["new"] = {str(i): gen.prior_spec() for i in sorted(sub)}
+        for i in sub:
+            H["pool"][i] = D["new"][str(i)]
+    elif route == "with_limits":
+        D["limits"] = {}
+        for i in used:
+            p = pool[i]
+            lo, hi = unhex(p["lo"]), unhex(p["hi"])
+            if lo == -INF or hi == INF:
+                c = unhex(p["mean"])
+                lo_, hi_ = abs(c) * 0.5 + 0.25, abs(c) * 0.5 + rng.choice([1.5, 2.0, 7.25])
+                if p["fam"] == "Gaussian":
+                    lo_, hi_ = c - rng.choice([0.5, 1.0, 3.25]), c + rng.choice([0.5, 2.0])
+                if lo not in (-INF,) and lo_ <= lo:
+                    lo_ = lo + 0.125
+                if hi != INF and hi_ >= hi:
+                    hi_ = hi
+                if not lo_ < hi_:
+                    lo_, hi_ = lo_, lo_ + 1.0
+            else:
+                w = hi - lo
+                lo_ = lo + w * rng.choice([-0.5, 0.0, 0.125, 0.25])
+                hi_ = hi - w * rng.choice([-0.5, 0.0, 0.125, 0.25])
+                if p["fam"] == "LogUniform" and lo_ <= 0:
+                    lo_ = lo
+            D["limits"][str(i)] = [hx(lo_), hx(hi_)]
+            H["pool"][i] = limited(p, lo_, hi_)
+    elif route in ("means_a", "means_r", "result_absolute", "result_relative", "uniform_floats", "result_bounded"):
+        D["means"] = {}
+        width = rng.choice([0.125, 0.5, 1.0, 2.5, 0.3])
+        key = {"means_a": "a", "result_absolute": "a", "means_r": "r", "result_relative": "r"}.get(route, "b")
+        D[key] = hx(width)
+        if route.startswith("result"):
+            D["via_result"] = rng.random() < 0.5
+        D["no_limits"] = route in ("means_a", "means_r") and rng.random() < 0.5
+        for i in used:
+            p = pool[i]
+            lo, hi = unhex(p["lo"]), unhex(p["hi"])
+            m = q(rng.uniform(lo, hi)) if lo != -INF and hi != INF else q(unhex(p["mean"]) + rng.uniform(-1, 1))
+            if m == 0.0 and key == "r":
+                m = 0.5
+            D["means"][str(i)] = hx(m)
+            if key == "b":
+                H["pool"][i] = {"fam": "Uniform", "lo": hx(m - width), "hi": hx(m + width)}
+            else:
+                lim = (hx(-INF), hx(INF)) if D["no_limits"] else (p["lo"], p["hi"])
+                H["pool"][i] = {"fam": "Gaussian", "lo": lim[0], "hi": lim[1], "mean": hx(m),
+                                "sigma": hx(width if key == "a" else width * abs(m))}
+    return D, H
+
+
+NO_ARGUMENT_ROUTES = ("copy", "freeze", "freeze_unfreeze")      # derivations that do not go through gaussian_prior_model_for_arguments
+
+
+def derive_labels(base, steps):
+    """label of the recorded finding derived-tuple-member-order, computed from the case: the source holds a tuple with a
+    fixed member before a free one and some step goes through gaussian_prior_model_for_arguments"""
+    if all(d["route"] in NO_ARGUMENT_ROUTES for d in steps):
+        return []
+    for _, n in walk_spec(base["model"]):
+        if n["t"] == "tuple":
+            kinds = [v["t"] == "prior" for _, v in n["members"]]
+            if any(not a and b for i, a in enumerate(kinds) for b in kinds[i + 1:]):
+                return ["derived_tuple_order"]
+    return []
+
+
+MEANS_ROUTES = ("means_a", "means_r", "result_absolute", "result_relative")
+
+
+def coll_direct_prior(spec):
+    """a prior held directly by a Collection: prior passing by means takes its limits from the configuration of whatever class
+    the collection reports for it (not from the prior) -- the new limits are then the configuration's business, not C07's"""
+    return any(n["t"] == "coll" and any(v["t"] == "prior" for _, v in n["items"]) for _, n in walk_spec(spec["model"]))
+
+
+def derive_cases(rng, gen, S, quick):
+    """pairs (model composed by hand, model derived by the library from S) that must share one identifier -- directly,
+    through the files a fit of the derived model writes, and after a second derivation -- and the derived model itself
+    for the correspondence"""
+    if not derive_eligible(S):
+        return []
+    out = []
+    base = _copy.deepcopy(S)
+    base.pop("build", None)
+    routes = rng.sample(sorted(set(DERIVE_ROUTES)), 3 if quick else 6)
+    if "item_number" in features(S):        # positional collections: every replacing route is tried over a few bases
+        routes = sorted(set(routes) | {rng.choice(["identity", "partial", "args", "with_limits", "means_a", "uniform_floats"])})
+    second = ["partial", "with_limits", "means_a", "identity", "copy", "uniform_floats"]
+    if coll_direct_prior(S):
+        routes = [r_ for r_ in routes if r_ not in MEANS_ROUTES] or ["partial"]
+        second = [r_ for r_ in second if r_ not in MEANS_ROUTES]
+    for route in routes:
+        D, H = derive_step(rng, gen, base, route)
+        steps, hand, pools = [D], H, [H["pool"]]
+        if rng.random() < 0.3:              # a derived model is derived again (a cell of a grid over a passed prior model)
+            D2, hand = derive_step(rng, gen, H, rng.choice(second))
+            steps.append(D2)
+            pools.append(hand["pool"])
+        how = "derive:" + "+".join(d["route"] for d in steps)
+        b = with_build(base, derive=steps)
+        lab = derive_labels(base, steps)
+        out.append({"kind": "pair", "how": how, "expect": "same", "a": hand, "b": b, "labels": list(lab)})
+        r = rng.random()
+        if r < 0.5:
+            out.append({"kind": "pair", "how": "derive_files:" + how[7:], "expect": "same", "a": hand,
+                        "b": with_build(base, derive=steps, route="files", export=rng.random() < 0.3),
+                        "labels": lab + reload_labels(hand, "files")})
+        if r > (0.6 if quick else 0.3):
+            out.append({"kind": "fit", "spec": b, "hand": hand, "step_pools": pools, "labels": list(lab)})
+        # the derived model still differs from the model it was derived from whenever a prior changed
+        if hand["pool"] != base["pool"] and rng.random() < 0.3 and _json.dumps(hand["pool"], sort_keys=True) != _json.dumps(base["pool"], sort_keys=True):
+            changed = [i for i in used_refs(base) if hand["pool"][i] != base["pool"][i]]
+            if any(prior_distinct(hand["pool"][i], base["pool"][i]) for i in changed):
+                out.append({"kind": "pair", "how": "derive_differs", "expect": "differ", "a": base, "b": b, "labels": []})
+    return out
+
+
+def prior_distinct(p, q):
+    """two prior specifications whose descriptions differ clearly (family, or a parameter by more than the resolution)"""
+    if p["fam"] != q["fam"]:
+        return True
+    keys = ("lo", "hi") + (("mean", "sigma") if p["fam"] in ("Gaussian", "LogGaussian") else ())
+    for k in keys:
+        a, b = unhex(p[k]), unhex(q[k])
+        if a != b and (a in (INF, -INF) or b in (INF, -INF) or abs(a - b) > 2.5e-8):
+            return True
+    return False
+
+
+# ---------------------------------------------------------------------------------------
 # generic values for the walk
 # ---------------------------------------------------------------------------------------
 def gen_value(rng, depth=0):
@@ -1461,6 +1683,7 @@ def gen_cases(ctx):
                 b = with_build(S, route="refit")
                 b["then"] = {"model": other["b"]["model"], "pool": other["b"]["pool"], "tag": other["b"].get("tag")}
                 cases.append({"kind": "pair", "how": "refit", "expect": "same", "a": S, "b": b, "labels": []})
+        cases += derive_cases(rng, gen, S, quick)
         if fit_eligible(S) and fits < (6 if quick else 60):
             fits += 1
             a = _copy.deepcopy(S)
@@ -1641,7 +1864,11 @@ def oracle(c, r):
                 if b.get("folder") != b.get("paths_identifier") or not b.get("folder_exists"):
                     out.append(("output folder is not named by the identifier", False))
                 if b.get("paths_identifier") != ida:
-                    out.append(("paths.identifier of the written fit differs from the identifier", False))
+                    out.append(("paths.identifier of the written fit differs from the identifier", ["derived_tuple_order"]))
+                if b.get("identifier") is not None and b.get("identifier") != b.get("folder"):
+                    out.append(("the fit wrote its files to folder %s but model.json / search.json read back from that folder "
+                                "(SearchOutput.id) give the identifier %s" % (b.get("folder"), b.get("identifier")),
+                                ["reload:fixed_model"]))
             if "raised" in b:
                 out.append(("equal construction (%s): %s at stage %s of going through the fit's own files"
                             % (c["how"], b["raised"], b.get("stage")), True))
@@ -1677,7 +1904,24 @@ def coq_terms(c, r):
     """list of Coq `case` terms for one implementation result"""
     k = c["kind"]
     out = []
-    if k == "fit" and "raised" not in r and r.get("abs_model"):
+    if k == "fit" and c.get("hand") and "raised" not in r and r.get("abs_model"):
+        # the fitted model was derived by the library: its shape and description against the model of the derivation
+        # and against the composition by hand (ids erased on both sides)
+        S, H = c["spec"], c["hand"]
+        fl = spec_floats(S, set())
+        spec_floats(H, fl)
+        for pl in c["step_pools"]:
+            spec_floats({"pool": pl, "model": {"t": "none"}, "search": S["search"]}, fl)
+        abs_floats(r["abs_model"], fl)
+        used = used_refs(S)
+        steps = [clist([cpair(cZ(i), node_term({"t": "prior", "ref": i}, pl)) for i in used])
+                 for d, pl in zip(S["build"]["derive"], c["step_pools"]) if d["route"] not in ("copy", "freeze", "freeze_unfreeze")]
+        if all(ascii_ok(x) for x in r["hash_list"]):
+            out.append("CDerive %s %s %s %s %s %s %s %s %s" % (
+                str_table(fl), search_term(S["search"]), node_term(S["model"], S["pool"]), node_term(H["model"], H["pool"]),
+                clist(steps), copt(S.get("tag"), cstr), cbool("derived_tuple_order" not in c.get("labels", [])),
+                obj_term(r["abs_model"]), cslist(r["hash_list"])))
+    elif k == "fit" and "raised" not in r and r.get("abs_model"):
         S = c["spec"]
         fl = spec_floats(S, set())
         abs_floats(r["abs_model"], fl)
@@ -1698,8 +1942,9 @@ def coq_terms(c, r):
             sr = "search_raised" in b
             out.append("CReload %s %s %s" % (search_term(S["search"]), cbool(sr), "ONone" if sr else obj_term(b["abs_search"])))
         if c["b"].get("build", {}).get("route") in ("files", "fit") and "raised" not in b and b.get("abs_model") \
-                and "dropping_instance" not in features(c["b"]):
-            S = c["b"]
+                and "dropping_instance" not in features(c["b"]) and "derived_tuple_order" not in c.get("labels", []):
+            # (the files of a fit of a DERIVED model are read back to the shape of the equal model composed by hand)
+            S = c["a"] if c["b"]["build"].get("derive") else c["b"]
             out.append("CReload %s false %s" % (node_term(S["model"], S["pool"]), obj_term(b["abs_model"])))
     if k == "walk":
         fl = abs_floats(r["abs"], set())
@@ -1736,7 +1981,12 @@ def run(ctx):
                 "sub-resolution float change) or a DIFFERENT one (one prior parameter/family, fixed value, class, sharing pattern, "
                 "attribute, key, operator, identifying search setting, search class, tag), (c) generic Python values for the walk, "
                 "incl. values the walk has no branch for (numpy scalars, complex, 0-d arrays), sets, a dict subclass, "
-                "(d) single floats for the rounding. A fit/pair is non-trivial when the model has >= 2 priors and a shared prior, "
+                "(d) single floats for the rounding, (e) models DERIVED by the library from a composition (identity arguments, "
+                "mapper_from_partial_prior_arguments = grid-search cell, replacing, mapper_from_prior_arguments, with_limits, "
+                "mapper_from_prior_means a/r, mapper_from_uniform_floats, model_absolute/relative/bounded of a SamplesSummary / Result, "
+                "copy, freeze, unfreeze, derivation from a frozen model, two derivations in a row) paired with the equal model composed "
+                "by hand: same identifier directly and through the files a fit of the derived model writes; must differ from the "
+                "source when a prior changed. A fit/pair is non-trivial when the model has >= 2 priors and a shared prior, "
                 "nesting >= 2, a tuple, arithmetic or a constant (search/tag pairs always); distinct = distinct abstract input")
     ctx.trusted = [
         "Coq 8.16.1 kernel incl. vm_compute; primitive floats are kernel primitives",
@@ -1818,6 +2068,11 @@ def run(ctx):
             for f in sorted(features(c.get("spec") or c["a"])):
                 ctx.hist("feature", f)
             ctx.hist("search", (c.get("spec") or c["a"])["search"]["cls"])
+            dv = (c.get("spec") or c["b"]).get("build", {}).get("derive")
+            if dv:
+                for d in dv:
+                    ctx.hist("derive_route", d["route"])
+                ctx.hist("derive_source", "positional collection" if "item_number" in features(c.get("spec") or c["b"]) else "other")
         if "exc" in r:
             if c.get("corpus"):
                 corpus_failed[c["corpus"]] = "driver failed: %s" % r["exc"]
@@ -1892,13 +2147,18 @@ MANIFEST = {
             "vm_compute correspondence token by token and shape by shape with the running code, plus a direct oracle on equal "
             "constructions (ids, order, labels, deepcopy, keyword order, JSON, files written by save_all and by real fits read "
             "through SearchOutput in the same and in another process, a search re-used for a second fit, configuration defaults "
-            "given explicitly, sub-resolution floats) and on every single-field perturbation class incl. the 1e-8..2.5e-8 band, for "
+            "given explicitly, sub-resolution floats; models derived by the library -- grid-search cells, replacing, prior passing "
+            "by means / uniform floats / a Result, with_limits, copies, freezing, chained derivations -- against the equal model "
+            "composed by hand, directly and through the files a fit of the derived model writes, with theorems "
+            "C07_derived_same_identifier / _copy_same_identifier / _roundtrip over a model of gaussian_prior_model_for_arguments whose "
+            "item_number rule is read from the source) and on every single-field perturbation class incl. the 1e-8..2.5e-8 band, for "
             "all eleven search classes",
     "note": "Trusted: Coq kernel + vm_compute, the translator part of c07.py, the live-object abstraction of c07_impl.py (it mirrors two "
             "code facts: numpy unwrapping, set sorting), str(float) and md5 as oracle / injectivity hypotheses. The sensitivity "
             "theorems are per perturbation in context, not global injectivity (refuted). A ModifiedPrior under a class with prior "
             "configuration (silent default on reload) and plain objects whose constructor arguments cannot be read back are checked "
-            "by the oracle only. identifier_version config, md5 collisions, Array models are not covered. Eight genuine defects are "
+            "by the oracle only. identifier_version config, md5 collisions, Array models are not covered. Derivations of models holding arithmetic "
+            "priors and Result.model (widths from configuration) are not generated. Eight genuine defects are "
             "recorded as known findings (one with a proposed repair); four were repaired in /repo during construction.",
     "technique": "machine-checked proof in Coq (translator-regenerated constants and code facts) + vm_compute correspondence + property oracle",
 }
